@@ -202,6 +202,19 @@ def store_programs():
         "slices": "l = [1, 2, 3, 4]\nl[:2], l[2:] = l[2:], l[:2]\nprint(l)\n",
         "chain-swap": "a, b = 1, 2\nt = a, b = b, a\nprint(t, a, b)\n",
     }
+    # chained assignment: the targets are stored LEFT TO RIGHT, each store seeing the ones before it (a later target's object /
+    # index reads what an earlier target bound; creation order of keys, attributes, class members)
+    CHAIN = {
+        "index-after-name": "a = [0, 0, 0]\ni = 0\ni = a[i] = 2\nprint(i, a)\n",
+        "linked": PRELUDE + "head = node = Box()\nfor k in range(3):\n    node.nxt = node = Box()\n    node.k = k\nout = []\nn = head\nwhile hasattr(n, 'nxt'):\n    n = n.nxt\n    out.append(n.k)\nprint(out)\n",
+        "key-order": "d = {}\nd['a'] = d['b'] = d['c'] = 0\nprint(list(d))\n",
+        "attr-order": PRELUDE + "o = Box()\no.x = o.y = o.z = 1\nprint(list(vars(o)))\n",
+        "class-members": "class K:\n    first = second = third = 1\nprint([k for k in vars(K) if not k.startswith('_')])\n",
+        "three-dependent": "x = [5, 6, 7]\nk = 0\nk = x[k] = x[k - 1] = 2\nprint(k, x)\n",
+        "in-function": "def f():\n    a = [0, 0, 0]\n    i = 0\n    i = a[i] = 1\n    d = {}\n    d[i] = d[i + 1] = i\n    return i, a, list(d)\nprint(f())\n",
+    }
+    for k, body in CHAIN.items():
+        yield ("chained", k), body
     for k, body in SIM.items():
         yield ("simultaneous", k), body
         ind = "\n".join("    " + l for l in body.strip().split("\n"))
